@@ -6,6 +6,66 @@ HERE = os.path.dirname(os.path.dirname(os.path.abspath(__file__)))
 
 # id -> (category, technique, level text, level note, design ref)
 CHECKS = {
+ "C05": ("exploration",
+         "runtime monitor: expected item computed from the source AST of generated programs, compared structurally with the parsed emitted item under several registration orders",
+         "Thousands of coincidence-free source programs (decided exactly from the source) are pushed through the scale-info model in 3 registration orders; for every definition the expected generic item (parameters by declared position, every field type with parameters in place, Box/Cow/VecDeque/compact normalisations, one trailing marker naming exactly the unused parameters, variant indices) is compared with what the generator emitted, and all orders must agree.",
+         "Trusted: the scale-info model (corpus-checked against real scale-info) and the expectation builder (about 150 lines, written from the normalisations named in the statement).",
+         "DESIGN.md section 6 C05"),
+ "C06": ("exploration",
+         "runtime monitor: output equality across in-process repetitions with fresh hash maps, registration-order permutations and fresh child processes; sortedness/uniqueness checks on emitted derive and attribute lists",
+         "Settings with many derives, attributes, registrations and substitutes are generated so that a leaked hash order would differ with high probability; tokens, de-duplicated registry and validation results (as sets) are compared across repetitions, permutations and processes; the number of distinct Derives::derives() iteration orders actually observed is reported and must be >= 2.",
+         "Trusted: std's per-map RandomState really varies (measured per run, inconclusive otherwise).",
+         "DESIGN.md section 6 C06"),
+ "C07": ("exploration",
+         "runtime monitor: differential generation without/with rules plus an executable specification of the rewrite applied to every type expression",
+         "For thousands of (registry, rule set) pairs over every rule form the module generated with the rules must equal the specification rewrite of the module generated without them, field by field and for resolve_type_path of every id; substituted items must be absent and no reference may survive.",
+         "Trusted: the syn-level rewrite (about 100 lines from the statement). Sources with skipped parameters are excluded from rules with declared generics and counted.",
+         "DESIGN.md section 6 C07"),
+ "C08": ("exploration",
+         "runtime monitor: parsed derive/attribute sets of every emitted item against a must/may reachability sandwich computed from the emitted code graph and the registry graph",
+         "Every registration uses names unique to it, so each derive on each item is attributable; items must carry global + own + recursive-from-ancestors (closure in generated code) and nothing outside the registry-graph closure; CompactAs is required / forbidden by the single-unsigned-field rule.",
+         "Trusted: the two reachability closures; the sandwich makes the monitor never demand more than the statement.",
+         "DESIGN.md section 6 C08"),
+ "C09": ("exploration",
+         "runtime monitor: all 2^6 switch combinations per registry, token-tree normaliser for the governed tokens, equality of all normalised outputs, plus per-switch honoured checks",
+         "Each registry (including one hand-built program with every heap-allocated prelude type at every kind of position) is generated under all 64 combinations; doc/codec attributes, alloc prefix, root, compact and bits paths are normalised away and all outputs must coincide; `std` must not occur with a custom alloc path, docs must equal the registry's, codec attributes must be absent/present as switched.",
+         "Trusted: the normaliser; identifiers used for the switch values occur nowhere else in the output by construction.",
+         "DESIGN.md section 6 C09"),
+ "C11": ("exploration",
+         "runtime monitor: BTreeMap/BTreeSet specification of validation and of the similar-path query over generated settings mixing known and unknown paths",
+         "Thousands of settings with several unknown paths, paths registered both specifically and recursively and unknown substitutes are validated; Ok iff no unknown path, and the three lists are compared as sets with each path at most once; similar-path queries are compared with the registry-order specification.",
+         "Trusted: the 60-line model.",
+         "DESIGN.md section 6 C11"),
+ "C12": ("exploration",
+         "runtime monitor: third-party encode/decode round trip (scale-value) of every returned example, seed determinism, Err only on cyclic/empty types, hook-based progress bound",
+         "Hundreds of thousands of (registry, id, seed) triples incl. all primitives, all bit-sequence formats, cycles, empty enums and Polkadot; known findings: char and 256-bit primitives cannot be encoded by the pinned scale-encode.",
+         "Trusted: scale-value/scale-encode/scale-decode as named by the statement.",
+         "DESIGN.md section 6 C12"),
+ "C13": ("exploration",
+         "runtime monitor: registry-driven recursive-descent reader of the description text, reachability check for expanded types, formatted-vs-unformatted comparison, hook-based expand-once and progress bounds",
+         "Every id of thousands of registries (cycles, generics, skipped parameters, bit sequences, one-element tuples, 256-bit primitives) and all 918 Polkadot ids is described and read back in lockstep with the registry; every reachable struct/enum must be expanded once; the policy may be entered at most once per named id.",
+         "Trusted: the reader (about 150 lines) and the name-form convention stated in the evidence.",
+         "DESIGN.md section 6 C13"),
+ "C14": ("exploration",
+         "runtime monitor: syn::Expr lockstep reader of every returned example against the registry and the emitted item",
+         "Every id x seed x path setting of thousands of registries: the example must parse and satisfy exactly the enumerated clauses (path, field names and arity incl. marker, literal types, tuple/array/vec arity, same seed same tokens).",
+         "Trusted: the reader; entries merged under a parameter coincidence have no item of their own and are skipped and counted.",
+         "DESIGN.md section 6 C14"),
+ "C16": ("exploration",
+         "runtime monitor: sequential map/set model replayed over random builder call histories with malformed arguments",
+         "Histories of up to 60 public builder calls incl. one malformation per call are applied to the real builders and to a BTreeMap model; substitute maps are compared after every call, error kinds and unchanged-after-rejection are checked, and derives are read back from a generated probe registry.",
+         "Trusted: the model (about 80 lines).",
+         "DESIGN.md section 6 C16"),
+ "C17": ("exploration",
+         "runtime monitor: metamorphic relations (permutation with renumbering, retain sub-registries) on generation, de-duplication partitions, descriptions and example validity",
+         "Coincidence-free registries are permuted (reversal, second-instantiation-first, random) and restricted; modules must be token-identical, rename groups equal as partitions, items of retained paths identical, descriptions and example validity unchanged.",
+         "Trusted: scale-info's retain for building sub-registries; CF is decided from the source.",
+         "DESIGN.md section 6 C17"),
+ "C18": ("exploration",
+         "runtime monitor: token comparison of API-built standalone structs with the variant in the emitted enum, derive/attribute set check, and compiled payload equality through rustc + parity-scale-codec",
+         "Every variant/struct of every non-generic emitted type (thousands in Polkadot) is rebuilt through create_composite_ir_kind + CompositeIR::new + upcast_composite; fields, Box and compact markers must match the enum's variant, derives must be exactly the global ones (+CompactAs rule), registrations on the parent must not leak; the structs are compiled and encode(enum)[1..] == encode(struct) is observed on reference encodings.",
+         "Trusted: rustc + parity-scale-codec 3.6.12 as runtime environment; the reference encoder.",
+         "DESIGN.md section 6 C18"),
  "C02": ("exploration",
          "runtime monitor: syn parse + module-tree reader + name/arity resolution + generic-usage + inline-cycle detection over emitted modules, and rustc (with parity-scale-codec derives) as a runtime environment for batches of emitted modules",
          "Every generated module of thousands of (registry after de-duplication, settings) pairs is parsed and checked for closedness, arity, unused generics, duplicate names and heap-free cycles; resolve_type_path of every id is checked too. One (quick) / many (thorough) batches of modules, including the 918-type Polkadot module, are compiled with rustc and the real codec derives; rejected modules are attributed to their case by primary span.",
